@@ -122,13 +122,28 @@ class ScriptedScheduler(BaseAlgorithm):
         return self._replay.on_schedule(self, active_sessions)
 
 
+def effective_kinds(start, var):
+    """The EVSE class of each station: the variation's choice, unless the specification says that class
+    does not accept every pilot of the behaviour's menu (start['accepts'], decided by MenuAcceptedBy in
+    AcnSim.tla) - then a continuous EVSE is used."""
+    kinds = list(var.evse_kinds or ["cont"] * start["ns"])
+    acc = start.get("accepts")
+    if acc:
+        kinds = [k if acc.get(k, True) else "cont" for k in kinds]
+    return kinds
+
+
+def station_phase(s, var):
+    return [30, -90, 150][(s - 1) % 3] if var.constraints == "3ph" else 0
+
+
 def build_network(start, var, cls=RecordingNetwork):
     ns, volt = start["ns"], start["volt"]
     order = list(range(1, ns + 1))
     if var.st_perm:
         order = [order[i] for i in var.st_perm]
     net = cls()
-    kinds = var.evse_kinds or ["cont"] * ns
+    kinds = effective_kinds(start, var)
     for s in order:
         k = kinds[s - 1]
         if k == "cont":
@@ -141,7 +156,7 @@ def build_network(start, var, cls=RecordingNetwork):
             evse = FiniteRatesEVSE(sid(s), [6, 12, 18, 24, 30])
         else:
             evse = FiniteRatesEVSE(sid(s), [32, 8, 0, 16, 24])
-        net.register_evse(evse, volt[s - 1], [30, -90, 150][(s - 1) % 3] if var.constraints == "3ph" else 0)
+        net.register_evse(evse, volt[s - 1], station_phase(s, var))
     cons = []
     if var.constraints == "agg":
         cons = [(Current([sid(s) for s in range(1, ns + 1)]), 40.0, "agg"),
@@ -282,6 +297,9 @@ class Replay:
             raise ScriptedCrash()
         m = self.menu[r["ret"]]
         self.pending_bad = m if m["kind"] != "ok" else None
+        # C04: a schedule that is rejected must leave *every* piece of state as it was when the scheduler
+        # was asked (recompute flag and last-update period included): remember it
+        self.pre_reject = self.snapshot() if self.pending_bad is not None else None
         return self.realise(m)
 
     def realise(self, m):
@@ -337,12 +355,20 @@ class Replay:
             self._chk("C05", "session.departure", x["dep"] + self.k, s.departure)
             self._chk("C05", "session.estimated_departure", self.est[i], s.estimated_departure)
             self._chk("C05", "session.current_time", t, s.current_time)
+            self._chk("C05", "session.remaining_time", x["dep"] - obs["t"], s.remaining_time)
+            self._chk("C05", "session.arrival_offset", 0, s.arrival_offset)
             self._chk("C05", "session.requested_energy", x["req"] / KWH, s.requested_energy,
                       close(s.requested_energy, x["req"] / KWH))
             if self.compare_energy:
                 self._chk("C05", "session.energy_delivered", evE[i] / KWH, s.energy_delivered,
                           close(s.energy_delivered, evE[i] / KWH))
                 v = self.volt[x["st"] - 1]
+                # remaining demand, in kWh and in A*periods: (req - evE) W*min over V*T W*min per A*period
+                rem = (x["req"] - evE[i])
+                self._chk("C05", "session.remaining_demand", rem / KWH, s.remaining_demand,
+                          close(s.remaining_demand, rem / KWH, abs_=1e-12))
+                rap = iface.remaining_amp_periods(s)
+                self._chk("C05", "remaining_amp_periods", rem / (v * self.T), rap, close(rap, rem / (v * self.T), abs_=1e-9))
                 self._chk("C05", "last_actual_charging_rate", lastE[i] / (v * self.T), rates[s.session_id],
                           close(rates[s.session_id], lastE[i] / (v * self.T)))
         # pilots of the previous period (from the third period on)
@@ -376,6 +402,7 @@ class Replay:
             self._chk("C05", "infra.max_pilot", 32.0, float(info.max_pilot[j]))
             self._chk("C05", "evse_voltage", self.volt[s - 1], float(iface.evse_voltage(sid(s))))
             self._chk("C05", "max_pilot_signal", 32.0, float(iface.max_pilot_signal(sid(s))))
+        self.compare_station_descriptions(iface, info)
         self._chk("C05", "infra.constraint_ids", list(self.expected_constraint_ids), list(info.constraint_ids))
         if len(self.expected_constraint_ids):
             self._chk("C05", "infra.constraint_matrix", self.expected_cm.tolist(),
@@ -383,6 +410,36 @@ class Replay:
             self._chk("C05", "infra.constraint_limits", self.expected_lim.tolist(),
                       np.asarray(info.constraint_limits).tolist())
         self.obs_log.append({"t": obs["t"], "active": sorted(act)})
+
+    def compare_station_descriptions(self, iface, info):
+        """Limits, phases and allowable pilots of every station, as the specification describes the
+        station's EVSE class (KindTab in AcnSim.tla, from EVSEDefs.tla; currents in 1e-4 A)."""
+        tab = self.start.get("kindtab")
+        if not tab:
+            return
+        kinds = self.station_kinds()
+        for s in range(1, self.ns + 1):
+            d = tab[kinds[s - 1]]
+            j = info.get_station_index(sid(s))
+            want_allow = sorted(x / 1e4 for x in d["allow"])
+            self._chk("C05", "infra.phases[%s]" % sid(s), float(self.phase_of(s)), float(info.phases[j]))
+            self._chk("C05", "evse_phase[%s]" % sid(s), float(self.phase_of(s)), float(iface.evse_phase(sid(s))))
+            self._chk("C05", "infra.max_pilot[%s]" % sid(s), d["max"] / 1e4, float(info.max_pilot[j]))
+            self._chk("C05", "infra.min_pilot[%s]" % sid(s), d["min"] / 1e4, float(info.min_pilot[j]))
+            self._chk("C05", "infra.is_continuous[%s]" % sid(s), bool(d["cont"]), bool(info.is_continuous[j]))
+            self._chk("C05", "infra.allowable_pilots[%s]" % sid(s), want_allow,
+                      sorted(float(x) for x in info.allowable_pilots[j]))
+            cont, allow = iface.allowable_pilot_signals(sid(s))
+            self._chk("C05", "allowable_pilot_signals[%s]" % sid(s), [bool(d["cont"]), want_allow],
+                      [bool(cont), sorted(float(x) for x in allow)])
+            self._chk("C05", "min_pilot_signal[%s]" % sid(s), d["min"] / 1e4, float(iface.min_pilot_signal(sid(s))))
+            self._chk("C05", "max_pilot_signal[%s]" % sid(s), d["max"] / 1e4, float(iface.max_pilot_signal(sid(s))))
+
+    def station_kinds(self):
+        return effective_kinds(self.start, self.var)
+
+    def phase_of(self, s):
+        return station_phase(s, self.var)
 
     def _session_index_from_id(self, session_id):
         return int(session_id.split("-")[1])
@@ -586,6 +643,12 @@ class Replay:
                 # nothing may have changed: the spec's pilots at this point are in the record
                 self.compare_pilots(r["pilots"], "pilots@reject")
                 self._chk("C04", "iteration@reject", r["t"] + self.k, self.sim.iteration)
+                if getattr(self, "pre_reject", None) is not None:
+                    now = self.snapshot()
+                    for key in now:
+                        self._chk("C04", "state_changed_by_rejected_schedule." + key, self.pre_reject[key], now[key],
+                                  _deep_close(self.pre_reject[key], now[key]))
+                    self.pre_reject = None
             # stopped: optional JSON round trip, then resume
             snap = self.snapshot()
             r = self._next("dumpload")
